@@ -691,6 +691,8 @@ def _variant_texts(ctx, texts):
         ("set", "SET 8 = 1, 2,\n"),  # EOF inside a set
         ("set", "SET 9 = 1, x\n"),
         ("set", "set 10 = 5 thru 9,\n\n  11\n"),
+        ("set", "SET 11 = 1, 2,,\n3\n"),  # several trailing commas: rstrip(",") removes them all
+        ("set", "SET 12 = 4 THRU 6,,, \n 9,\n10\n"),
         ("extrn", "EXTRN,3,123456,11\n"),  # odd number of values
         ("extrn", "EXTRN          3  123456      11  123456 $ c\n"),
         ("spoint", "SPOINT*              980            thru            1004\n"),
@@ -765,6 +767,8 @@ def _variant_texts(ctx, texts):
                 for k, it in enumerate(items):
                     cur += it + ("," if k < len(items) - 1 else "")
                     if k < len(items) - 1 and rng.random() < 0.25:
+                        if rng.random() < 0.15:
+                            cur += "," * rng.randint(1, 2)  # extra trailing commas are stripped by the reader
                         lines.append(cur + " " * rng.randint(0, 2))
                         if rng.random() < 0.15:
                             lines.append("")
